@@ -114,7 +114,25 @@ def run_impl(case):
         ds = {"time": list(ts)}
         ds.update({v: list(data[v]) for v in vs})
         offv = [p[1] for p in off.evaluate(ds)]
-        return outs, on.sampling_violation_counter, outs2, on2.sampling_violation_counter, offv, off.sampling_violation_counter
+        # an object that was used under another sampling configuration (other period unit), then reset and given this one,
+        # must count like the fresh one; the offline object likewise (its counter accumulates over evaluate() calls)
+        other_unit = [u for u in UNITS if u != case["punit"]][0]
+        on3 = impl.make_spec("ond", text, vs, unit=case["unit"], sampling=(3, other_unit, 0.1))
+        on3.parse()
+        for i in range(min(n, 3)):
+            on3.update(i, [(v, data[v][i]) for v in vs])
+        on3.reset()
+        on3.set_sampling_period(per, case["punit"], tol)
+        for i in range(n):
+            on3.update(ts[i], [(v, data[v][i]) for v in vs])
+        off3 = impl.make_spec("offd", text, vs, unit=case["unit"], sampling=(3, other_unit, 0.1))
+        off3.parse()
+        off3.evaluate({"time": [0], **{v: [data[v][0]] for v in vs}})
+        off3.set_sampling_period(per, case["punit"], tol)
+        before = off3.sampling_violation_counter
+        off3.evaluate({"time": list(ts), **{v: list(data[v]) for v in vs}})
+        return (outs, on.sampling_violation_counter, outs2, on2.sampling_violation_counter, offv, off.sampling_violation_counter,
+                on3.sampling_violation_counter, off3.sampling_violation_counter - before)
     return text, impl.guarded(go)
 
 
@@ -137,7 +155,7 @@ def check_case(ctx, case, m):
            "data": case["data"], "model_online_offline_spec": m, "impl": res}
     if res[0] != "ok":
         return Violation("update/evaluate raised %r with sampling config %r" % (res[1:], cfg), rep, stream="samp"), None
-    outs, cnt_on, outs_periodic, cnt_periodic, offv, cnt_off = res[1]
+    outs, cnt_on, outs_periodic, cnt_periodic, offv, cnt_off, cnt_on3, cnt_off3 = res[1]
     m_on, m_off, m_spec = m
     ngaps = case["n"] - 1
     if 0 < m_spec < ngaps or ngaps == 0:
@@ -148,6 +166,10 @@ def check_case(ctx, case, m):
     if cnt_off != m_spec:
         return Violation("offline sampling_violation_counter is %r; %d of the %d gaps lie outside the band (config %r, time stamps %s)"
                          % (cnt_off, m_spec, ngaps, cfg, rep["ts"]), rep, stream="samp/offline"), None
+    if cnt_on3 != m_spec or cnt_off3 != m_spec:
+        return Violation("an object used under another sampling configuration, then reconfigured (%r): online counter %r, offline "
+                         "counter %r; %d of the %d gaps lie outside the band (time stamps %s)" % (cfg, cnt_on3, cnt_off3, m_spec, ngaps, rep["ts"]),
+                         rep, stream="samp/reconfigured"), None
     if cnt_periodic != 0:
         return Violation("perfectly periodic time stamps are counted as %r violations (config %r)" % (cnt_periodic, cfg), rep,
                          stream="samp/periodic"), None
